@@ -1541,3 +1541,37 @@ def agree1d_clause(vals, num, direction, bc, transverse):
                     show(num=num, direction=direction, bc=bc, transverse=transverse, n_long=nl, n_trans=nt, flux=flux, kappa=kap, errors=errs)
                     ok = False
     return ok
+
+
+def shift2d_clause(vals, num, direction):
+    """2-D periodic operator on data rolled by one cell along x or y against the rolled residual"""
+    import flowdyn.mesh2d as mesh2d, flowdyn.modeldisc as md, flowdyn.modelphy.euler as eu, flowdyn.xnum as xnum, flowdyn.field as field
+    ok = True
+    for nx, ny, lx, ly in ((1, 1, 1.0, 2.0), (2, 3, 1.3, 0.7), (3, 2, 0.9, 1.7), (5, 4, 2.0, 1.0), (1, 4, 1.0, 1.0), (4, 1, 1.0, 1.0)):
+        for flux in ("centered", "hlle"):
+            for kap in ((None,) if num == "extrapol2d1" else (1. / 3., -1.0, 0.4)):
+                model = eu.euler2d()
+                mk = (lambda: xnum.extrapol2d1()) if num == "extrapol2d1" else (lambda: xnum.extrapol2dk(kap))
+                rng = np.random.default_rng(100 * nx + ny)
+                n = nx * ny
+                rho, p = 1 + 0.3 * rng.uniform(-1, 1, n), 1 + 0.3 * rng.uniform(-1, 1, n)
+                V = 0.4 * rng.uniform(-1, 1, (2, n))
+                per = {"type": "per"}
+                bc = {"left": per, "right": per, "bottom": per, "top": per}
+                msh = mesh2d.mesh2d(nx, ny, lx, ly)
+                ax = 1 if direction == "x" else 0
+                roll = lambda a: np.roll(np.asarray(a).reshape(ny, nx), 1, axis=ax).reshape(-1)
+                img = lambda W: [roll(W[0]), np.array([roll(W[1][0]), roll(W[1][1])]), roll(W[2])]
+                try:
+                    r1 = md.fvm2dcart(model, msh, mk(), bc, numflux=flux).rhs(field.fdata(model, msh, model.prim2cons([rho, V, p])))
+                    r2 = md.fvm2dcart(model, msh, mk(), bc, numflux=flux).rhs(field.fdata(model, msh, model.prim2cons(img([rho, V, p]))))
+                except Exception as e:
+                    show(num=num, direction=direction, nx=nx, ny=ny, flux=flux, kappa=kap, exception=repr(e))
+                    ok = False
+                    continue
+                want = img(r1)
+                err = max(float(np.max(np.abs(r2[0] - want[0]))), float(np.max(np.abs(r2[1] - want[1]))), float(np.max(np.abs(r2[2] - want[2]))))
+                if not err <= 1e-9 * max(1.0, float(np.max(np.abs(r1[2])))):
+                    show(num=num, direction=direction, nx=nx, ny=ny, flux=flux, kappa=kap, error=err)
+                    ok = False
+    return ok
